@@ -36,6 +36,189 @@ import (
 //              view in between needs exactly this interleaving; it is forced through two public seams: the pipeline fake
 //              holds the second check of the upkeep until the upkeep-type getter (called by RemoveProposals) lets it go.
 
+// c08RunRestage: TTL boundaries of results that are staged AGAIN on a newer check block, and a block-history update that
+// arrives through the subscription WHILE Observation runs.
+//
+//   T1  node A stages the first checks (w@b1)
+//   T2  (1…4 min later) half of the work is checked again on a newer block and staged again on A (replacing w@b1, the TTL
+//       starts over); node B stages, at T2, exactly what A holds then — it never saw the first checks; for a few results
+//       an OLDER check arrives late and is ignored
+//   observations at T1+TTL-1ns, T1+TTL, T1+TTL+1ns, T2+TTL-1ns, T2+TTL, T2+TTL+1ns (expiry is `age > TTL`)
+//   during the observation right after T2 the block source of node A delivers a new, shorter view: the type getter is
+//   asked (by coordinator.ShouldProcess, for a result whose transmission failed) after AddBlockHistoryHook ran; there the
+//   harness publishes and lets the store's goroutine take the update.  The observation must carry one of the two views.
+func c08RunRestage(t *testing.T, rc c08ScriptRecipe, em *Emitter) []c08Shot {
+	r := NewRng(rc.Seed)
+	digest := genHash(r)
+	const N, F = 4, 1
+	nodes := [2]*c08SNode{}
+	for i := range nodes {
+		h := &c08Hook{}
+		sn := &c08SNode{hook: h, byWid: map[string]ocr2keepers.CheckResult{}, seen: map[string]time.Time{}, stagedAt: map[int]time.Time{},
+			rec: map[string]uint64{}, pending: map[string]bool{}, props: map[string]c08PropEntry{}, hist: ocr2keepers.BlockHistory{},
+			at: map[string]time.Time{}, exact: map[int]bool{}}
+		sn.Node = c08NewHookedNode(t, NodeOpts{N: N, F: F, Digest: digest, OracleID: i}, h)
+		sn.Run.mu.Lock()
+		sn.Run.fn = sn.pipeline
+		sn.Run.mu.Unlock()
+		nodes[i] = sn
+	}
+	defer func() {
+		for _, n := range nodes {
+			n.Close()
+		}
+		time.Sleep(11 * time.Second)
+		synctest.Wait()
+	}()
+	time.Sleep(1637 * time.Millisecond)
+	A, B := nodes[0], nodes[1]
+	height := uint64(r.Range(1000, 100000))
+	var pool []ocr2keepers.CheckResult
+	var lens []int
+	add := func(res ocr2keepers.CheckResult) int {
+		pool = append(pool, res)
+		lens = append(lens, len(must(gojson.Marshal(res))))
+		for _, n := range nodes {
+			n.mu.Lock()
+			n.byWid[res.WorkID] = res
+			n.mu.Unlock()
+		}
+		return len(pool) - 1
+	}
+	key := func(res ocr2keepers.CheckResult) string { return fmt.Sprintf("%s@%d", res.WorkID, res.Trigger.BlockNumber) }
+	// exactTimes replaces the hand-over times of the given entries by the times the pipeline was asked (= Add)
+	exactTimes := func(n *c08SNode, idx []int) {
+		n.mu.Lock()
+		defer n.mu.Unlock()
+		for _, k := range idx {
+			if at, ok := n.at[key(pool[k])]; ok {
+				if _, st := n.stagedAt[k]; st {
+					n.stagedAt[k] = at
+					n.exact[k] = true
+				}
+			}
+		}
+	}
+	mkHist := func(top uint64, depth int) ocr2keepers.BlockHistory {
+		h := make(ocr2keepers.BlockHistory, 0, depth)
+		for d := 0; d < depth; d++ {
+			h = append(h, ocr2keepers.BlockKey{Number: ocr2keepers.BlockNumber(top - uint64(d)), Hash: genHash(r)})
+		}
+		return h
+	}
+	publish := func(n *c08SNode, h ocr2keepers.BlockHistory) {
+		n.Blocks.Publish(h)
+		n.hist = h
+	}
+	// ---- T1: the first checks, on node A only
+	var first []int
+	for i := 0; i < rc.NRes; i++ {
+		first = append(first, add(genResult(r, genUpkeepID(r, r.Chance(50)), height)))
+	}
+	A.feed(pool, r.Perm(len(first)))
+	longView := mkHist(height+500, []int{257, 300, 400}[r.Intn(3)])
+	publish(A, longView)
+	publish(B, longView)
+	time.Sleep(2130 * time.Millisecond)
+	exactTimes(A, first)
+	t1 := A.stagedAt[first[0]]
+	// one result is reported, the transmission fails: from then on coordinator.ShouldProcess asks for its upkeep type
+	z := pool[first[r.Intn(len(first))]]
+	A.accept([]ocr2keepers.CheckResult{z})
+	A.release(r, height)
+	time.Sleep(1400 * time.Millisecond)
+	var shots []c08Shot
+	info := map[string]int{}
+	seq := rc.Seq0
+	shoot := func(altA ocr2keepers.BlockHistory, before func(i int)) {
+		synctest.Wait()
+		nx := [2]c08NodeX{A.view(pool, nil), B.view(pool, nil)}
+		if altA != nil {
+			nx[0].HistAlt = toJBKs(altA)
+		}
+		ic := map[string]int{}
+		for k, v := range info {
+			ic[k] = v
+		}
+		shots = append(shots, c08TakeShot(digest, F, seq, pool, lens, nx, nil, [2]*Node{A.Node, B.Node}, ic, before))
+		seq += uint64(rc.Step)
+		em.Hit(fmt.Sprintf("script-seq%%10=%d", seq%10))
+	}
+	shoot(nil, nil)
+	// ---- T2: half of the work is checked again on a newer block; a few older checks arrive late; B catches up
+	time.Sleep(t1.Add(time.Duration(r.Range(60, 240))*time.Second + 130*time.Millisecond).Sub(time.Now()))
+	var second, late, feedA, feedB []int
+	for j, k := range first {
+		switch {
+		case j%2 == 0: // checked again on a newer block: replaces the first check on A
+			res := pool[k]
+			res.Trigger.BlockNumber += ocr2keepers.BlockNumber(r.Range(1, 5))
+			res.Trigger.BlockHash = genHash(r)
+			k2 := add(res)
+			second = append(second, k2)
+			A.unstage(k)
+			feedA = append(feedA, k2)
+			feedB = append(feedB, k2)
+		case j%7 == 1 && pool[k].Trigger.BlockNumber > 2: // an OLDER check arrives late: ignored, the first one and its age stay
+			res := pool[k]
+			res.Trigger.BlockNumber -= 2
+			res.Trigger.BlockHash = genHash(r)
+			late = append(late, add(res))
+			feedB = append(feedB, k)
+		default:
+			feedB = append(feedB, k)
+		}
+	}
+	A.feed(pool, feedA)
+	for _, k := range late { // handed to A's log provider, but never staged (the store keeps the higher check block)
+		A.Logs.mu.Lock()
+		A.Logs.payloads = append(A.Logs.payloads, payloadOf(pool[k]))
+		A.Logs.mu.Unlock()
+	}
+	B.feed(pool, feedB)
+	time.Sleep(2130 * time.Millisecond)
+	exactTimes(A, feedA)
+	exactTimes(B, feedB)
+	t2 := A.stagedAt[second[0]]
+	info["restaged-on-newer-block"] = len(second)
+	info["older-check-ignored"] = len(late)
+	// ---- the observation during which node A's block source delivers a new, shorter view
+	shortView := mkHist(height+507, r.Range(3, 60))
+	A.hook.mu.Lock()
+	A.hook.watch, A.hook.watchFired = z.UpkeepID, false
+	A.hook.onWatch = func() {
+		A.Blocks.Publish(shortView)
+		time.Sleep(time.Millisecond) // the metadata store's goroutine takes the update while Observation is still running
+	}
+	A.hook.mu.Unlock()
+	info["history-update-during-observation"] = 1
+	shoot(shortView, func(i int) {
+		A.hook.mu.Lock()
+		A.hook.watching = i == 0
+		A.hook.mu.Unlock()
+	})
+	delete(info, "history-update-during-observation")
+	A.hook.mu.Lock()
+	fired := A.hook.watchFired
+	A.hook.watching = false
+	A.hook.mu.Unlock()
+	if !fired {
+		t.Fatalf("c08 restage: the type getter was not asked for the released result during Observation")
+	}
+	A.hist = shortView
+	// ---- the TTL boundaries
+	for _, target := range []time.Time{t1.Add(c08StoreTTL - 1), t1.Add(c08StoreTTL), t1.Add(c08StoreTTL + 1),
+		t2.Add(c08StoreTTL - 1), t2.Add(c08StoreTTL), t2.Add(c08StoreTTL + 1)} {
+		if d := target.Sub(time.Now()); d > 0 {
+			time.Sleep(d)
+		}
+		info["at-ttl-boundary"] = 1
+		shoot(nil, nil)
+	}
+	em.Hit("script=restage")
+	return shots
+}
+
 type c08ScriptRecipe struct {
 	Script    bool   `json:"script"` // discriminates a script from a world recipe
 	Seed      uint64 `json:"seed"`
@@ -63,6 +246,12 @@ type c08Hook struct {
 	nx    int
 	fire  func()
 	fired bool
+	// watch: run onWatch once when the type of this upkeep is asked for (e.g. by coordinator.ShouldProcess inside
+	// FilterResults, i.e. after AddBlockHistoryHook and before the final Encode)
+	watching     bool
+	watch        ocr2keepers.UpkeepIdentifier
+	onWatch      func()
+	watchFired   bool
 }
 
 func (h *c08Hook) typeGetter(uid ocr2keepers.UpkeepIdentifier) types.UpkeepType {
@@ -75,6 +264,10 @@ func (h *c08Hook) typeGetter(uid ocr2keepers.UpkeepIdentifier) types.UpkeepType 
 			h.armed, h.fired = false, true
 			f = h.fire
 		}
+	}
+	if h.watching && uid == h.watch {
+		h.watching, h.watchFired = false, true
+		f = h.onWatch
 	}
 	h.mu.Unlock()
 	if f != nil {
@@ -118,6 +311,8 @@ type c08SNode struct {
 	gateWid  string
 	gateBlk  uint64
 	gateHit  bool
+	at       map[string]time.Time // "work id@check block" -> virtual time of the pipeline call (= time of the store's Add)
+	exact    map[int]bool         // stagedAt[k] is the exact Add time (TTL boundaries may be hit to the nanosecond)
 	// expected state
 	stagedAt map[int]time.Time // pool index -> when it was handed to the log provider
 	order    []int             // pool indices in feeding order
@@ -138,6 +333,9 @@ func (n *c08SNode) pipeline(_ context.Context, ps []ocr2keepers.UpkeepPayload) (
 		if ok {
 			if _, s := n.seen[p.WorkID]; !s {
 				n.seen[p.WorkID] = time.Now()
+			}
+			if n.at != nil {
+				n.at[fmt.Sprintf("%s@%d", p.WorkID, p.Trigger.BlockNumber)] = time.Now()
 			}
 			if n.gate != nil && p.WorkID == n.gateWid && uint64(p.Trigger.BlockNumber) == n.gateBlk {
 				g = n.gate
@@ -240,7 +438,7 @@ func (n *c08SNode) view(pool []ocr2keepers.CheckResult, readd []JProp) c08NodeX 
 	x := c08NodeX{Staged: []int{}, Inflight: []string{}, Log: []JProp{}, Cond: []JProp{}, Hist: toJBKs(n.hist), Readd: readd}
 	for _, k := range n.order {
 		if at, ok := n.stagedAt[k]; ok {
-			if age := now.Sub(at); age > c08StoreTTL-3*time.Second && age < c08StoreTTL+3*time.Second {
+			if age := now.Sub(at); !n.exact[k] && age > c08StoreTTL-3*time.Second && age < c08StoreTTL+3*time.Second {
 				panic("c08 script: a staged result is within 3 s of the store TTL at an observation")
 			} else if age > c08StoreTTL {
 				continue
@@ -317,6 +515,9 @@ func (n *c08SNode) afterShot(pool []ocr2keepers.CheckResult, prev *ocr2keepersv3
 
 // c08RunScript runs a script inside the current bubble; one shot per round.
 func c08RunScript(t *testing.T, rc c08ScriptRecipe, em *Emitter) []c08Shot {
+	if rc.Variant == "restage" {
+		return c08RunRestage(t, rc, em)
+	}
 	r := NewRng(rc.Seed)
 	digest := genHash(r)
 	const N, F = 4, 1
@@ -755,6 +956,9 @@ func c08ScriptGen(r *Rng, i int) c08ScriptRecipe {
 	if i%40 == 13 {
 		return c08ChurnScript(rc.Seed)
 	}
+	if i%8 == 6 {
+		return c08ScriptRecipe{Script: true, Seed: rc.Seed, Variant: "restage", NRes: []int{2, 9, 40, 110, 150}[r.Intn(5)], Seq0: rc.Seq0, Step: 1, Shot: -1}
+	}
 	return rc
 }
 
@@ -772,6 +976,8 @@ func c08ScriptEdge() []c08ScriptRecipe {
 		{Script: true, Seed: 105, Variant: "none", NRes: 10, Seq0: 47, Step: 1, Shots: 6, Shot: -1, Readd: true},
 		{Script: true, Seed: 106, Variant: "inflight-release", NRes: 30, Seq0: 59, Step: 1, Shots: 6, Shot: -1, Reorg: true, Readd: true, BothEmpty: true},
 		c08ChurnScript(107),
+		{Script: true, Seed: 108, Variant: "restage", NRes: 12, Seq0: 71, Step: 1, Shot: -1},
+		{Script: true, Seed: 109, Variant: "restage", NRes: 140, Seq0: 85, Step: 1, Shot: -1},
 	}
 }
 
